@@ -349,13 +349,20 @@ def check(ctx):
     from ..packs import tables
     device_on_states(ctx, repo, "R6", tables(repo))
     ini = repo.own_method("GeckoAsyncFacade", "__init__")
-    gi = cfg_of(ini)
-    ok = False
-    for n, c in calls_named(gi, "watch"):
-        if c.args and ast.unparse(c.args[0]) == "self._on_config_device_change":
-            lp = gi.loop_of(n)
-            ok = lp is not None and lp.kind == "for" and ast.unparse(lp.ast.iter) == "self.all_config_change_devices" and receiver(c) == ast.unparse(lp.ast.target)
-    ctx.ob("R5", "GeckoAsyncFacade.__init__::watches-config-devices", ok, "the facade does not watch every config-change device with _on_config_device_change", ini.loc)
+    # by construction: on the facades built for the richest shipped pair of every platform, every config-change device has
+    # the facade's _on_config_device_change among its observers (however the registration loop is written)
+    from ..buildmodel import config_devices_watched
+    n_w, n_dev = 0, 0
+    for (plat_, cs_, ls_), (r_, extra_) in sorted(config_devices_watched(repo, tables(repo)).items()):
+        if r_ is not None or extra_ is None:
+            continue
+        missing_, nd_ = extra_
+        n_w += 1
+        n_dev += nd_
+        ctx.ob("R5", f"GeckoAsyncFacade::{plat_}::watches-config-devices", not missing_,
+               f"GeckoAsyncFacade built on ({cs_}, {ls_}): the config-change devices {missing_} are not watched with _on_config_device_change - turning them on or off does not switch the configuration", ini.loc)
+    ctx.floor("R5", "facades examined for config-device watchers", n_w, 8)
+    ctx.floor("R5", "config-change devices examined", n_dev, 20)
     fu = repo.own_method("GeckoAsyncFacade", "_facade_update")
     ctx.ob("R5", "_facade_update::re-evaluates", any(isinstance(n, ast.Call) and call_name(n) == "_on_config_device_change" for n in ast.walk(fu.node)), "the periodic update no longer re-evaluates the mode", fu.loc)
     ctx.note("NOT decided: wake-up latency and 'never sleeps longer than asked' as measured time (asyncio.wait semantics assumed).")
